@@ -66,17 +66,20 @@ class GroundedPrecondition:
         lifted_conditions: Precondition,
         grounded_conditions: Precondition,
         parameters_map: Dict[str, str],
+        action: Optional[Action] = None,
     ) -> None:
         """Ground the preconditions of the action.
 
         :param lifted_conditions: the lifted preconditions of the action.
         :param grounded_conditions: the grounded preconditions of the action.
         :param parameters_map: the mapping between the lifted and the grounded objects.
+        :param action: the action whose signature types the grounded predicates (defaults to the grounded action).
         """
+        signature_action = action if action is not None else self.action
         for precondition in lifted_conditions.operands:
             if isinstance(precondition, Predicate):
                 grounded_predicate = ground_predicate(
-                    precondition, parameters_map, self.domain, self.action
+                    precondition, parameters_map, self.domain, signature_action
                 )
                 grounded_conditions.add_condition(grounded_predicate)
 
@@ -88,9 +91,13 @@ class GroundedPrecondition:
                 )
 
             elif isinstance(precondition, UniversalPrecondition):
-                self._parameter_map = parameters_map
-                self.logger.debug("There is no need to ground universal preconditions.")
-                continue
+                if action is None:
+                    self._parameter_map = parameters_map
+
+                self.logger.debug(
+                    "Universal preconditions are grounded for each object when they are validated."
+                )
+                grounded_conditions.operands.add(precondition)
 
             elif isinstance(precondition, Precondition):
                 grounded_condition = Precondition(precondition.binary_operator)
@@ -100,7 +107,8 @@ class GroundedPrecondition:
                 grounded_condition.inequality_preconditions = self._ground_equality_objects(
                     precondition.inequality_preconditions, parameters_map
                 )
-                self._ground(precondition, grounded_condition, parameters_map)
+                self._ground(precondition, grounded_condition, parameters_map, action)
+                grounded_conditions.operands.add(grounded_condition)
 
             else:
                 raise ValueError(
@@ -114,11 +122,13 @@ class GroundedPrecondition:
         :param preconditions: the preconditions to validate.
         :return: whether the equality preconditions hold.
         """
-        return all(
-            [obj1 == obj2 for obj1, obj2 in preconditions.equality_preconditions]
-        ) and all(
-            [obj1 != obj2 for obj1, obj2 in preconditions.inequality_preconditions]
-        )
+        equality_results = [
+            obj1 == obj2 for obj1, obj2 in preconditions.equality_preconditions
+        ] + [obj1 != obj2 for obj1, obj2 in preconditions.inequality_preconditions]
+        if preconditions.binary_operator == "or":
+            return any(equality_results)
+
+        return all(equality_results)
 
     def _validate_numeric_expression_hold(
         self,
@@ -192,22 +202,19 @@ class GroundedPrecondition:
         """
         grounded_preconditions = Precondition(condition.binary_operator)
         tmp_action = Action()
-        tmp_action.signature = self.action.signature
-        tmp_action.signature[condition.quantified_parameter] = condition.quantified_type
-        for sub_condition in condition.operands:
-            if isinstance(sub_condition, Predicate):
-                grounded_predicate = ground_predicate(
-                    sub_condition, extended_parameter_map, self.domain, tmp_action
-                )
-                grounded_preconditions.add_condition(grounded_predicate)
-
-            elif isinstance(sub_condition, NumericalExpressionTree):
-                grounded_preconditions.add_condition(
-                    ground_numeric_calculation_tree(
-                        sub_condition, extended_parameter_map, self.domain
-                    )
-                )
-
+        tmp_action.signature = {
+            **self.action.signature,
+            condition.quantified_parameter: condition.quantified_type,
+        }
+        grounded_preconditions.equality_preconditions = self._ground_equality_objects(
+            condition.equality_preconditions, extended_parameter_map
+        )
+        grounded_preconditions.inequality_preconditions = self._ground_equality_objects(
+            condition.inequality_preconditions, extended_parameter_map
+        )
+        self._ground(
+            condition, grounded_preconditions, extended_parameter_map, tmp_action
+        )
         return grounded_preconditions
 
     def _validate_universal_precondition(
@@ -223,54 +230,26 @@ class GroundedPrecondition:
         :return: whether the universal precondition is applicable in the given state.
         """
         if not problem_objects:
-            raise ValueError(
-                "The objects of the problem should be provided for universal preconditions."
+            self.logger.warning(
+                "Did not receive the problem objects so cannot validate the universal preconditions."
             )
+            return True
 
-        self.logger.debug(
-            "Validating if the universal precondition is applicable in the state"
-        )
-        is_applicable = self._validate_equality_holds(condition)
-        self.logger.debug("We assume that universal preconditions are not nested.")
-        extended_parameter_map = {**self._parameter_map}
+        is_applicable = True
         for obj_name, obj in problem_objects.items():
             if not obj.type.is_sub_type(condition.quantified_type):
                 continue
 
-            extended_parameter_map[condition.quantified_parameter] = obj_name
+            extended_parameter_map = {
+                **self._parameter_map,
+                condition.quantified_parameter: obj_name,
+            }
             grounded_precondition = self._ground_universal_condition(
                 condition, extended_parameter_map
             )
-            for sub_condition in grounded_precondition.operands:
-                if isinstance(sub_condition, GroundedPredicate):
-                    is_applicable = BinaryOperator[
-                        grounded_precondition.binary_operator
-                    ](
-                        is_applicable,
-                        self._validate_predicates_hold(
-                            sub_condition, is_applicable, condition, state
-                        ),
-                    )
-
-                elif isinstance(sub_condition, NumericalExpressionTree):
-                    is_applicable = BinaryOperator[
-                        grounded_precondition.binary_operator
-                    ](
-                        is_applicable,
-                        self._validate_numeric_expression_hold(
-                            sub_condition, is_applicable, condition, state
-                        ),
-                    )
-
-                elif isinstance(sub_condition, Precondition):
-                    is_applicable = BinaryOperator[
-                        grounded_precondition.binary_operator
-                    ](
-                        is_applicable,
-                        self._is_condition_applicable(
-                            sub_condition, state, problem_objects
-                        ),
-                    )
+            is_applicable = is_applicable and self._is_condition_applicable(
+                grounded_precondition, state, problem_objects
+            )
 
         return is_applicable
 
@@ -305,16 +284,19 @@ class GroundedPrecondition:
                     ),
                 )
 
-            elif isinstance(condition, Precondition):
+            elif isinstance(condition, UniversalPrecondition):
                 is_applicable = BinaryOperator[preconditions.binary_operator](
-                    is_applicable, self._is_condition_applicable(condition, state)
+                    is_applicable,
+                    self._validate_universal_precondition(
+                        condition, state, problem_objects
+                    ),
                 )
 
-            elif isinstance(condition, UniversalPrecondition):
-                is_applicable = self._validate_universal_precondition(
-                    condition, state, problem_objects
+            elif isinstance(condition, Precondition):
+                is_applicable = BinaryOperator[preconditions.binary_operator](
+                    is_applicable,
+                    self._is_condition_applicable(condition, state, problem_objects),
                 )
-                continue
 
             else:
                 raise ValueError(f"Unknown precondition type: {type(condition)}")
